@@ -71,6 +71,14 @@ type caseCtx struct {
 	// whose discovery document announces exactly the allow-list. The allowed list is c.A in all three.
 	route      string
 	routeOrder int // position of rp.WithSigningAlgsFromDiscovery among the options (0 = first, 1 = last)
+
+	// rp-remote only: entries of the served / cached JWKS document that no verifier can use (noise.go). They are not
+	// part of the trust set c.S / c.cached.
+	noise       []placedNoise
+	cachedNoise []placedNoise
+
+	// part O (overlap.go) only: keys of the client whose token the OTHER of the two overlapping calls presents
+	peerS []ksEntry
 }
 
 type presented struct {
